@@ -687,6 +687,7 @@ func (x *Exec) Run() {
 			}
 		}
 	}
+	x.initBinds(s)
 	env := x.specEnv(s, nil)
 	// global invariants of every package with a spec are assumed
 	x.assumeGlobalInvariants(s)
@@ -1673,6 +1674,10 @@ func (x *Exec) chanRecv(s *State, cv Val, elem types.Type, name string, okv *Ter
 		s.writes["ghost:var:cancelled"] = writeRec{obj: x.fsMarker()}
 	}
 	c, cs := x.chanStore(s, cv)
+	if cs != nil && cs.Closed != nil {
+		// a receive that completes without a value means the channel is closed
+		s.assume(Implies(Not(okv), cs.Closed))
+	}
 	if cs != nil && x.E.semaphores[c.Obj.id] {
 		// releasing a slot: only a slot this activation holds may be taken out
 		goal := Ge(cs.Held, Int(1))
@@ -2521,6 +2526,16 @@ func (x *Exec) valEq(s *State, a, b Val, in ssa.Instruction) *Term {
 			if p.Fn == nil && p.Opaque == nil {
 				return q.Nil
 			}
+			// function values are compared in contracts only (identity of the code)
+			if p.Opaque != nil && q.Opaque != nil {
+				return Eq(p.Opaque, q.Opaque)
+			}
+			if pf, ok := p.Fn.(*ssa.Function); ok && len(p.Bind) == 0 && len(q.Bind) == 0 {
+				if qf, ok := q.Fn.(*ssa.Function); ok {
+					return Bool(pf == qf)
+				}
+			}
+			return Eq(x.E.toTerm(s, p, p.Sig), x.E.toTerm(s, q, q.Sig))
 		}
 	case *IfaceV:
 		q, ok := b.(*IfaceV)
@@ -2930,4 +2945,53 @@ func carriesLabel(ci *ChanInvDecl) (string, bool) {
 
 func (x *Exec) isPkgInit() bool {
 	return x.fn != nil && x.fn.Synthetic == "package initializer"
+}
+
+// initBinds gives every bind name of the contract an unconstrained value of
+// the right type, so that clauses can be evaluated on paths where the named
+// call never happens (there the name stands for nothing in particular).
+func (x *Exec) initBinds(s *State) {
+	if x.c == nil || len(x.c.Binds) == 0 {
+		return
+	}
+	for _, b := range x.c.Binds {
+		var typ types.Type
+		for _, blk := range x.fn.Blocks {
+			for _, instr := range blk.Instrs {
+				call, ok := instr.(*ssa.Call)
+				if !ok || typ != nil {
+					continue
+				}
+				cc := call.Common()
+				name := ""
+				if cc.IsInvoke() {
+					name = typeName(cc.Value.Type()) + "." + cc.Method.Name()
+				} else if callee := cc.StaticCallee(); callee != nil {
+					name = callee.String()
+				} else if _, isB := cc.Value.(*ssa.Builtin); !isB {
+					name = "dynamic:" + typeName(cc.Value.Type())
+				}
+				if name != "" && strings.Contains(name, b.Callee) {
+					typ = call.Type()
+				}
+			}
+		}
+		if typ == nil {
+			continue
+		}
+		var facts []*Term
+		v := x.E.freshVal(typ, "bind."+b.Name+".unset", &facts)
+		for _, f := range facts {
+			s.assume(f)
+		}
+		if s.binds == nil {
+			s.binds = map[string]Val{}
+		}
+		s.binds[b.Name] = v
+		if tv, ok := v.(*TupleV); ok {
+			for i, ev := range tv.E {
+				s.binds[fmt.Sprintf("%s%d", b.Name, i)] = ev
+			}
+		}
+	}
 }
